@@ -118,7 +118,7 @@ def soup_texts(chk: core.Check, mode: str, n: int) -> List[str]:
 
     r = core.tlc("MC_Soup", c06.GEN.format(lang="path", n=n, mode=mode), timeout=3000, workers=8)
     chk.add_tlc(r)
-    dec = {"EACUTE": "\u00e9", "SUPER2": "\u00b2", "HUGE": "9" * 4400, "LIMIT4300": "9" * 4300, "SQRUN": "'" + "\\" * 70, "DQRUN": '"' + "\\" * 70, "RERUN": "/" + "\\" * 70}
+    dec = {"EACUTE": "\u00e9", "SUPER2": "\u00b2", "ARDIGIT1": "\u0661", "HUGE": "9" * 4400, "LIMIT4300": "9" * 4300, "SQRUN": "'" + "\\" * 70, "DQRUN": '"' + "\\" * 70, "RERUN": "/" + "\\" * 70}
     return sorted({"".join(dec.get(x, x) for x in rec["s"]) for rec in r.records})
 
 
